@@ -54,7 +54,8 @@ M_LAMARGS = 'C04-LAMBDA-SPECIAL-PARAMS-DROPPED'
 M_GENKW = 'C04-CALL-GENEXP-DROPS-KEYWORDS'
 M_TUPLE1 = 'C04-SUBSCRIPT-SINGLETON-TUPLE'
 M_BAREFV = 'C04-SINGLE-FIELD-FSTRING-AFTER-DECOMPILE'
-ALL_M = (M_OPERAND, M_RECV, M_SPEC, M_BRACE, M_LEADBRACE, M_LAMARGS, M_GENKW, M_TUPLE1, M_BAREFV)
+M_NEGPOW = 'C04-NEGATIVE-CONSTANT-POWER-BASE'
+ALL_M = (M_NEGPOW, M_OPERAND, M_RECV, M_SPEC, M_BRACE, M_LEADBRACE, M_LAMARGS, M_GENKW, M_TUPLE1, M_BAREFV)
 
 COMPOUND = (ast.BoolOp, ast.BinOp, ast.UnaryOp, ast.Compare, ast.IfExp, ast.Lambda)
 
@@ -105,6 +106,7 @@ def shapes_present(tree):
                 if not isinstance(ch, ast.AST): continue
                 if isinstance(ch, (ast.IfExp, ast.Lambda)) and operand_position(parent, fname): S.add(M_OPERAND)
                 if receiver_position(parent, fname) and needs_receiver_parens(parent, ch): S.add(M_RECV)
+                if negative_constant_pow_base(parent, fname, ch): S.add(M_NEGPOW)
                 # f'{x}' with one field and no literal text is compiled without BUILD_STRING, so pony's
                 # decompiler yields a FormattedValue that is not inside a JoinedStr
                 if isinstance(ch, ast.FormattedValue) and not isinstance(parent, ast.JoinedStr): S.add(M_BAREFV)
@@ -117,6 +119,12 @@ def shapes_present(tree):
                 and parent.keywords: S.add(M_GENKW)
     if isinstance(tree, ast.FormattedValue): S.add(M_BAREFV)
     return S
+
+
+def negative_constant_pow_base(parent, fname, ch):
+    """`(-2) ** x` after constant folding (only trees from the decompiler contain negative number constants)."""
+    return isinstance(parent, ast.BinOp) and isinstance(parent.op, ast.Pow) and fname == 'left' and \
+        isinstance(ch, ast.Constant) and type(ch.value) in (int, float) and repr(ch.value).startswith('-')
 
 
 def needs_receiver_parens(parent, ch):
@@ -215,6 +223,7 @@ def render_repaired(tree, M, ast2src):
             return go(ch, is_spec=True)            # rendered by fstring_text of the enclosing f-string
         if isinstance(ch, ast.FormattedValue) and not isinstance(parent, ast.JoinedStr) and M_BAREFV in M:
             ch = ast.JoinedStr(values=[ch])        # what the source said: a one-field f-string
+        if M_NEGPOW in M and negative_constant_pow_base(parent, fname, ch): return paren(ch)
         ch = go(ch)
         lam = isinstance(ch, (ast.IfExp, ast.Lambda)) or getattr(ch, 'lambda_like', False)
         if M_OPERAND in M and lam and operand_position(parent, fname): return paren(ch)
